@@ -435,6 +435,36 @@ func Run(c Case) (ev.Info, error) {
 			return info, fmt.Errorf("queue %s started task %s after its worker reported stop", n, t.GetId())
 		}
 	}
+	// a queue that is created and started after the stop request (named queues are created while the operator
+	// starts) must not run anything either
+	lateStarted := make(chan string, 4)
+	tqs.NewNamedQueue("created-after-stop", func(t task.Task) queue.TaskResult {
+		lateStarted <- t.GetId()
+		return queue.TaskResult{Status: queue.Success}
+	})
+	lq := tqs.GetByName("created-after-stop")
+	qh.FastTimings(lq)
+	lt := qh.NewTask("late-queue-task")
+	lt.WithQueueName("created-after-stop")
+	lq.AddLast(lt)
+	lq.Start()
+	lateDeadline := time.Now().Add(qh.Ceiling)
+	for lq.GetStatus() != "stop" {
+		select {
+		case id := <-lateStarted:
+			return info, fmt.Errorf("a queue created and started after the stop request executed task %s", id)
+		default:
+		}
+		if time.Now().After(lateDeadline) {
+			return info, fmt.Errorf("the worker of a queue created and started after the stop request did not terminate within %s (status %q)", qh.Ceiling, lq.GetStatus())
+		}
+		time.Sleep(50 * time.Microsecond)
+	}
+	select {
+	case id := <-lateStarted:
+		return info, fmt.Errorf("a queue created and started after the stop request executed task %s", id)
+	default:
+	}
 	done := make(chan struct{})
 	go func() { tqs.WaitStopWithTimeout(10 * time.Second); close(done) }()
 	select {
